@@ -17,6 +17,7 @@ struct CborB {
     template <class O> static ojson decode_stream(std::istream& is, const O& o) { return cbor::decode_cbor<ojson>(is, o); }
     static void encode(const ojson& j, std::vector<uint8_t>& out, uint64_t variant) { auto o = cbor::cbor_options{}.pack_strings(variant & 1).use_typed_arrays((variant & 2) != 0); cbor::encode_cbor(j, out, o); }
     static void encode_stream(const ojson& j, std::ostream& os, uint64_t variant) { auto o = cbor::cbor_options{}.pack_strings(variant & 1); cbor::encode_cbor(j, os, o); }
+    static Outcome encoder_nest(int ckind, size_t depth, int limit) { auto opt = cbor::cbor_options{}.max_nesting_depth(limit); return encoder_nest_impl<cbor::cbor_bytes_encoder, std::vector<uint8_t>, cbor::cbor_options>(ckind, depth, opt, false); }
     static const char* const* seed_hex() {
         static const char* const s[] = {
             "9f0102ff", "bf616101ff", "7f616161626263ff", "5f41014202 03ff", "9f9f9fffffff", "bf6161bf6162 9f01ffffff", "7f6161ff", "5fff", "9f", "bf6161", "7f6161", "ff", "9fff ff",
